@@ -294,7 +294,10 @@ impl<D: DataMut> ReaderFrom for MatZnx<D> {
         let new_cols_out: usize = reader.read_u64::<LittleEndian>()? as usize;
         let len: usize = reader.read_u64::<LittleEndian>()? as usize;
 
-        let expected_len: usize = new_rows * new_cols_in * new_n * new_cols_out * new_size * size_of::<i64>();
+        let expected_len: usize = crate::layouts::serialization::checked_coeff_bytes_or_err(
+            "MatZnx",
+            &[new_rows, new_cols_in, new_n, new_cols_out, new_size],
+        )?;
         if expected_len != len {
             return Err(std::io::Error::new(
                 std::io::ErrorKind::InvalidData,
